@@ -171,7 +171,18 @@ func (p *Prelude) zeroOf(t types.Type) string {
 	case *types.Slice:
 		return "(mk_slice 0 0 0)"
 	case *types.Array:
-		return fmt.Sprintf("((as const %s) %s)", p.sortOf(t), p.zeroOf(u.Elem()))
+		es := p.sortOf(u.Elem())
+		if es == "Int" || es == "Bool" || es == "Real" {
+			return fmt.Sprintf("((as const %s) %s)", p.sortOf(t), p.zeroOf(u.Elem()))
+		}
+		// element sorts without literal values: a named all-zero array (cvc5 accepts only values in const arrays)
+		name := q("zeroarr:" + es)
+		if !p.funDone[name] {
+			p.funDone[name] = true
+			p.funDecls = append(p.funDecls, fmt.Sprintf("(declare-const %s (Array Int %s))", name, es))
+			p.axioms = append(p.axioms, fmt.Sprintf("(assert (forall ((i Int)) (! (= (select %s i) %s) :pattern ((select %s i)))))", name, p.zeroOf(u.Elem()), name))
+		}
+		return name
 	case *types.Interface:
 		return "inil"
 	case *types.Struct:
